@@ -68,6 +68,8 @@ def convex_subset(rng: random.Random, nodes: list[dict]) -> list[int]:
 def gen_case(rng: random.Random, tier: str) -> dict:
     g = gen.gen_dag(rng, max_nodes=10 if tier == "thorough" else 8, p_edge_default=0.08)
     inp = gen.gen_inputs(rng, g)
+    if rng.random() < 0.25:
+        gen.odd_input_names(rng, g, inp)  # inputs whose names look like runner options: select, max_iterations, values ...
     cuts = []
     nodes = g["nodes"]
     # recursive cuts: each is a list of node names; deeper cuts are subsets of the previous one
@@ -84,7 +86,7 @@ def gen_case(rng: random.Random, tier: str) -> dict:
         cur_nodes = [cur_nodes[i] for i in sub]
         if len(cur_nodes) <= 1:
             break
-    ren = {"style": rng.choice(["none", "none", "fresh", "chain", "swap", "out", "mixed"]), "seed": rng.randrange(1 << 30)}
+    ren = {"style": rng.choice(["none", "none", "fresh", "chain", "swap", "out", "mixed", "out_chain", "rename_then_swap"]), "seed": rng.randrange(1 << 30)}
     return {"graph": g, "inputs": inp, "cuts": cuts, "rename": ren, "inner_select": rng.random() < 0.25, "bind_inner": rng.random() < 0.7,
             "touch": rng.choice([[], [], ["spec"], ["graph"], ["spec", "graph"]]), "bind_conflict": rng.random() < 0.3, "async": [gen.gen_async_cfg(rng, allow_hold=True) for _ in range(2)]}
 
@@ -173,6 +175,16 @@ def build_nested(doc: dict) -> tuple[dict, dict, dict, dict]:
             o = rr.choice(wout)
             rho[o] = o + "_r"
             steps.append({"outputs": {o: o + "_r"}})
+        if style == "out_chain" and wout:
+            o = rr.choice(wout)  # an output renamed twice in a row
+            steps.append({"outputs": {o: o + "_t"}})
+            steps.append({"outputs": {o + "_t": o + "_r"}})
+            rho[o] = o + "_r"
+        if style == "rename_then_swap" and len(win) >= 2:
+            a, b = rr.sample(win, 2)  # an input renamed, then swapped with another one
+            steps.append({"inputs": {a: a + "_p"}})
+            steps.append({"inputs": {a + "_p": b, b: a + "_p"}})
+            rho[a], rho[b] = b, a + "_p"
         wrapper["renames"] = steps
     # alpha-rename every outer function node through rename_inputs / output names
     for nd in top_nodes:
@@ -343,7 +355,7 @@ def shrink_candidates(doc: dict):
                 c["cuts"] = [cc for cc in c["cuts"] if cc]
                 yield c
     if doc["rename"]["style"] != "none":
-        for st in ("none", "fresh", "swap", "out", "chain"):
+        for st in ("none", "fresh", "swap", "out", "chain", "out_chain"):
             if st != doc["rename"]["style"]:
                 c = copy.deepcopy(doc)
                 c["rename"]["style"] = st
